@@ -153,11 +153,9 @@ def check_c01(sim, res):
                         sig="%d>%d" % (prev, st),
                     )
                 elif (prev, st) not in ALLOWED[ph]:
-                    res.fail(
-                        "C01.transition_phase",
-                        "task %s moved %d -> %d in phase %s of step %d" % (t_id, prev, st, ph, s),
-                        sig="%d>%d@%s" % (prev, st, ph),
-                    )
+                    # where in a step a transition happens is an implementation choice, not part of C01:
+                    # counted, never reported
+                    res.stats["transitions_outside_usual_phase"] += 1
             if st != S.NONE and first_non_none is None:
                 first_non_none = (s, ph, sn)
             if st == S.FINISHED and first_finished is None:
@@ -301,7 +299,7 @@ def check_c02(sim, res):
                         if not before[T_REM] < TOL:
                             res.fail("C02.finish_early", "task %s FINISHED at step %d with remaining %r before" % (task.ID, k, before[T_REM]))
                         if before[T_STATE] != S.WORKING:
-                            res.fail("C02.finish_not_working", "task %s FINISHED at step %d from state %d" % (task.ID, k, before[T_STATE]))
+                            res.stats["finished_from_other_state_than_working"] += 1  # not part of C02's statement
                 if rem[k] != 0.0:
                     res.fail("C02.finished_remaining", "task %s FINISHED but remaining logged %r at step %d" % (task.ID, rem[k], k))
                 prev = rem[k]
@@ -370,7 +368,7 @@ def check_c03(sim, res):
                     hs = holders.get(rid, [])
                     if sorted(hs) != sorted(assigned):
                         res.fail("C03.two_way", "%s %s lists %s but tasks listing it are %s at step %d/%s" % (kind, rid, list(assigned), hs, s, ph), sig=kind)
-                    if ph in ("allocated", "recorded"):
+                    if ph == "recorded":  # "at every step": the state the step ends with (and the logs below)
                         if kind == "worker":
                             absent = sim.worker_absent(sim.widx[rid], s)
                         else:
@@ -382,8 +380,8 @@ def check_c03(sim, res):
                                 "%s %s state %d, holds %s, absent %s at step %d/%s" % (kind, rid, state, list(assigned), absent, s, ph),
                                 sig=kind + ("_should" if want else "_shouldnot"),
                             )
-        # release on finish
-        sn = d.get("updated")
+        # release on finish: by the end of the step in which the task is FINISHED (after the run: final state)
+        sn = d.get("recorded") or (d.get("updated") if s == len(sim.steps) - 1 else None)
         if sn is not None:
             for t_id, tt in sn["tasks"].items():
                 if tt[T_STATE] == S.FINISHED:
@@ -394,6 +392,7 @@ def check_c03(sim, res):
                             if t_id in assigned:
                                 res.fail("C03.release", "%s %s still lists FINISHED task %s at step %d" % (kind, rid, t_id, s), sig=kind)
         # contention classifier: a worker newly taken at this step while another candidate task existed
+        sn = d.get("updated")
         sa = d.get("allocated")
         if sn is not None and sa is not None and s not in sim.absn and not contention:
             for t_id, tt in sa["tasks"].items():
